@@ -17,9 +17,20 @@
 //	PassField f callee       recv.f of reference type (slice, pointer, map, chan, interface, func)
 //	                         or its address handed to a function / method
 //	PassRecv callee          the receiver itself handed on (or stored, returned, captured)
+//	Global g                 a package-level variable g is mentioned (read, written, sliced, passed on): state
+//	                         shared by ALL values of the type, which the receiver's mutex does not guard
 //	Unsupported what         a construct the translator does not follow (go, select, goto, labels,
 //	                         function literals touching the receiver); the Coq checks reject it
 //	Return                   end of the path
+//
+// Besides the methods, three facts about each type are emitted as data (the Coq side decides):
+//
+//	<t>_mutex_fields      the fields of type sync.Mutex / sync.RWMutex (Lock events do not name the
+//	                      mutex; the discipline is only meaningful if there is exactly one)
+//	<t>_outside_accesses  for a type that has a mutex: (function, field) for every selector .field
+//	                      naming one of the type's fields in a function or method that is NOT a method
+//	                      of the type (such code bypasses the per-method discipline; composite literals
+//	                      Filter{field: v} in constructors are not selectors and are not listed)
 //
 // Files carrying the build constraint `verif` (the add-only harness hooks) and
 // _test.go files are not part of the library as shipped and are skipped.
@@ -105,13 +116,73 @@ type typeInfo struct {
 	refField map[string]bool // fields of reference type
 	fields   map[string]bool
 	methods  map[string]*ast.FuncDecl
+	pkgVars  map[string]bool // package-level variables of the package (non-test, non-verif files)
 }
 
 type walker struct {
 	ti      *typeInfo
 	recv    string
 	aliases map[string]string // local variable -> receiver field it was initialised from
+	locals  map[string]bool   // names declared inside the function (they shadow package-level variables)
 	maxIter int
+}
+
+// global: the event for an identifier that names a package-level variable (and is not shadowed)
+func (w *walker) global(name string) []event {
+	if w.ti.pkgVars[name] && !w.locals[name] {
+		return []event{{kind: "Global", a: name}}
+	}
+	return nil
+}
+
+// localNames: every name a function declares (parameters, results, :=, var, range, type switch)
+func localNames(fd *ast.FuncDecl) map[string]bool {
+	out := map[string]bool{}
+	addFields := func(fl *ast.FieldList) {
+		if fl == nil {
+			return
+		}
+		for _, f := range fl.List {
+			for _, n := range f.Names {
+				out[n.Name] = true
+			}
+		}
+	}
+	addFields(fd.Recv)
+	addFields(fd.Type.Params)
+	addFields(fd.Type.Results)
+	if fd.Body == nil {
+		return out
+	}
+	ast.Inspect(fd.Body, func(n ast.Node) bool {
+		switch t := n.(type) {
+		case *ast.AssignStmt:
+			if t.Tok == token.DEFINE {
+				for _, l := range t.Lhs {
+					if id, ok := l.(*ast.Ident); ok {
+						out[id.Name] = true
+					}
+				}
+			}
+		case *ast.ValueSpec:
+			for _, id := range t.Names {
+				out[id.Name] = true
+			}
+		case *ast.RangeStmt:
+			if t.Tok == token.DEFINE {
+				for _, l := range []ast.Expr{t.Key, t.Value} {
+					if id, ok := l.(*ast.Ident); ok {
+						out[id.Name] = true
+					}
+				}
+			}
+		case *ast.FuncLit:
+			addFields(t.Type.Params)
+			addFields(t.Type.Results)
+		}
+		return true
+	})
+	return out
 }
 
 const maxPaths = 200000
@@ -247,7 +318,7 @@ func (w *walker) expr(e ast.Expr) []event {
 		if t.Name == w.recv {
 			return []event{{kind: "PassRecv", a: "receiver used as a value"}}
 		}
-		return nil
+		return w.global(t.Name)
 	case *ast.BasicLit:
 		return nil
 	case *ast.ParenExpr:
@@ -382,6 +453,9 @@ func (w *walker) call(c *ast.CallExpr) []event {
 		}
 	}
 	evs := w.expr(funOperand(c.Fun))
+	if id, ok := c.Fun.(*ast.Ident); ok {
+		evs = append(evs, w.global(id.Name)...) // call through a package-level variable of function type
+	}
 	for _, a := range c.Args {
 		evs = append(evs, w.argEvents(a, name)...)
 	}
@@ -419,7 +493,7 @@ func (w *walker) assign(lhs ast.Expr) []event {
 		if id.Name == w.recv {
 			return []event{{kind: "Unsupported", a: "receiver variable reassigned"}}
 		}
-		return nil
+		return w.global(id.Name)
 	}
 	if f, depth, viaAlias, ok := w.rootField(lhs); ok {
 		if w.ti.mutexes[f] {
@@ -779,13 +853,20 @@ func recvTypeName(fd *ast.FuncDecl) (typ, name string) {
 	return id.Name, name
 }
 
-func analyse(dir, typeName string) (string, []string, error) {
+type analysis struct {
+	body    string      // the Coq list elements of the methods
+	files   []string    // files read
+	mutexes []string    // mutex fields of the type, sorted
+	outside [][2]string // (function, field): selectors naming a field of the type outside its methods
+}
+
+func analyse(dir, typeName string) (*analysis, error) {
 	fset := token.NewFileSet()
 	pkgs, err := parser.ParseDir(fset, dir, func(fi os.FileInfo) bool { return !strings.HasSuffix(fi.Name(), "_test.go") }, parser.ParseComments)
 	if err != nil {
-		return "", nil, err
+		return nil, err
 	}
-	ti := &typeInfo{name: typeName, mutexes: map[string]bool{}, refField: map[string]bool{}, fields: map[string]bool{}, methods: map[string]*ast.FuncDecl{}}
+	ti := &typeInfo{name: typeName, mutexes: map[string]bool{}, refField: map[string]bool{}, fields: map[string]bool{}, methods: map[string]*ast.FuncDecl{}, pkgVars: map[string]bool{}}
 	var files []*ast.File
 	var fileNames []string
 	for _, p := range pkgs {
@@ -815,7 +896,7 @@ func analyse(dir, typeName string) (string, []string, error) {
 					}
 					st, ok := ts.Type.(*ast.StructType)
 					if !ok {
-						return "", nil, fmt.Errorf("%s is not a struct", typeName)
+						return nil, fmt.Errorf("%s is not a struct", typeName)
 					}
 					found = true
 					for _, fl := range st.Fields.List {
@@ -834,7 +915,7 @@ func analyse(dir, typeName string) (string, []string, error) {
 							}
 						}
 						if len(fl.Names) == 0 {
-							return "", nil, fmt.Errorf("%s has an embedded field (not supported)", typeName)
+							return nil, fmt.Errorf("%s has an embedded field (not supported)", typeName)
 						}
 					}
 				}
@@ -846,8 +927,58 @@ func analyse(dir, typeName string) (string, []string, error) {
 		}
 	}
 	if !found {
-		return "", nil, fmt.Errorf("type %s not found in %s", typeName, dir)
+		return nil, fmt.Errorf("type %s not found in %s", typeName, dir)
 	}
+	// package-level variables, and accesses to the type's fields from outside its methods
+	var outside [][2]string
+	seenOut := map[[2]string]bool{}
+	for _, f := range files {
+		for _, d := range f.Decls {
+			switch t := d.(type) {
+			case *ast.GenDecl:
+				if t.Tok == token.VAR {
+					for _, sp := range t.Specs {
+						if vs, ok := sp.(*ast.ValueSpec); ok {
+							for _, n := range vs.Names {
+								if n.Name != "_" {
+									ti.pkgVars[n.Name] = true
+								}
+							}
+						}
+					}
+				}
+			case *ast.FuncDecl:
+				if tn, _ := recvTypeName(t); tn == typeName || t.Body == nil || len(ti.mutexes) == 0 {
+					continue
+				}
+				fname := t.Name.Name
+				if tn, _ := recvTypeName(t); tn != "" {
+					fname = tn + "." + fname
+				}
+				ast.Inspect(t.Body, func(n ast.Node) bool {
+					if se, ok := n.(*ast.SelectorExpr); ok && ti.fields[se.Sel.Name] {
+						k := [2]string{fname, se.Sel.Name}
+						if !seenOut[k] {
+							seenOut[k] = true
+							outside = append(outside, k)
+						}
+					}
+					return true
+				})
+			}
+		}
+	}
+	sort.Slice(outside, func(i, j int) bool {
+		if outside[i][0] != outside[j][0] {
+			return outside[i][0] < outside[j][0]
+		}
+		return outside[i][1] < outside[j][1]
+	})
+	var mutexes []string
+	for m := range ti.mutexes {
+		mutexes = append(mutexes, m)
+	}
+	sort.Strings(mutexes)
 	var names []string
 	for n := range ti.methods {
 		names = append(names, n)
@@ -857,7 +988,7 @@ func analyse(dir, typeName string) (string, []string, error) {
 	for i, n := range names {
 		fd := ti.methods[n]
 		_, recv := recvTypeName(fd)
-		w := &walker{ti: ti, recv: recv, aliases: map[string]string{}, maxIter: maxIterUnexported}
+		w := &walker{ti: ti, recv: recv, aliases: map[string]string{}, locals: localNames(fd), maxIter: maxIterUnexported}
 		if ast.IsExported(n) {
 			w.maxIter = maxIterExported
 		}
@@ -892,7 +1023,7 @@ func analyse(dir, typeName string) (string, []string, error) {
 		}
 		sb.WriteString("\n")
 	}
-	return sb.String(), fileNames, nil
+	return &analysis{body: sb.String(), files: fileNames, mutexes: mutexes, outside: outside}, nil
 }
 
 func main() {
@@ -902,16 +1033,30 @@ func main() {
 	var sb strings.Builder
 	sb.WriteString("(* GENERATED by harness/cmd/lockir from the Go sources (go/ast only); do not edit.\n")
 	sb.WriteString("   For every method of bloom.Filter and gcs.Filter: the lock-relevant events along every syntactic\n")
-	sb.WriteString("   path of its body (loops taken 0..3 times in exported methods, 0..1 times in unexported ones; defer = at every following Return). *)\n")
+	sb.WriteString("   path of its body (loops taken 0..3 times in exported methods, 0..1 times in unexported ones; defer = at every following Return);\n")
+	sb.WriteString("   the mutex fields of each type; accesses to a mutex-guarded type's fields from outside its methods. *)\n")
 	sb.WriteString("From Coq Require Import List String.\nFrom BU Require Import Conc.LockEvents.\nImport ListNotations.\n\n")
 	for _, t := range []struct{ dir, typ, name string }{{"bloom", "Filter", "bloom_methods"}, {"gcs", "Filter", "gcs_methods"}} {
-		body, files, err := analyse(filepath.Join(*repo, t.dir), t.typ)
+		an, err := analyse(filepath.Join(*repo, t.dir), t.typ)
 		if err != nil {
 			fmt.Fprintln(os.Stderr, "lockir:", err)
 			os.Exit(1)
 		}
-		sb.WriteString(fmt.Sprintf("(* %s.%s — files read: %s *)\n", t.dir, t.typ, strings.Join(files, " ")))
-		sb.WriteString(fmt.Sprintf("Definition %s : list method := [\n%s].\n\n", t.name, body))
+		sb.WriteString(fmt.Sprintf("(* %s.%s — files read: %s *)\n", t.dir, t.typ, strings.Join(an.files, " ")))
+		sb.WriteString(fmt.Sprintf("Definition %s : list method := [\n%s].\n\n", t.name, an.body))
+		q := func(x string) string { return "\"" + strings.ReplaceAll(x, "\"", "'") + "\"%string" }
+		var ms, os_ []string
+		for _, m := range an.mutexes {
+			ms = append(ms, q(m))
+		}
+		for _, o := range an.outside {
+			os_ = append(os_, "("+q(o[0])+", "+q(o[1])+")")
+		}
+		prefix := strings.TrimSuffix(t.name, "_methods")
+		sb.WriteString(fmt.Sprintf("(* fields of %s.%s of type sync.Mutex / sync.RWMutex *)\n", t.dir, t.typ))
+		sb.WriteString(fmt.Sprintf("Definition %s_mutex_fields : list string := [%s].\n\n", prefix, strings.Join(ms, "; ")))
+		sb.WriteString(fmt.Sprintf("(* (function, field): selectors naming a field of %s.%s in code that is not one of its methods (only listed when the type has a mutex) *)\n", t.dir, t.typ))
+		sb.WriteString(fmt.Sprintf("Definition %s_outside_accesses : list (string * string) := [%s].\n\n", prefix, strings.Join(os_, "; ")))
 	}
 	new := []byte(sb.String())
 	if old, err := os.ReadFile(*out); err == nil && bytes.Equal(old, new) {
